@@ -2,7 +2,7 @@ package engine
 
 import "fmt"
 
-var famNames = []string{"F-type", "F-name", "F-sub", "F-full", "F-iface", "F-chain", "F-tsub", "F-nsub"}
+var famNames = []string{"F-type", "F-name", "F-sub", "F-full", "F-iface", "F-chain", "F-tsub", "F-nsub", "F-assign"}
 var formNames = map[int64]string{0: "positional where the labels allow it, else struct", 1: "struct", 2: "*struct", 3: "built (BuildFunc)", 9: "symbolic form per function"}
 
 // world describes one resolver template shard.
@@ -54,7 +54,7 @@ func registerResolver() {
 	register(&PropSpec{
 		ID: "C02", Pkg: "argmapper",
 		Quick: []Shard{
-			world("HarnessC02", 1, 1, 2, 0, 0, 0), world("HarnessC02", 2, 1, 2, 0, 1, 0), world("HarnessC02", 3, 1, 1, 0, 9, 0), world("HarnessC02", 0, 1, 1, 11, 9, 0), world("HarnessC02", 1, 1, 1, 11, 1, 0), world("HarnessC02", 2, 1, 1, 11, 3, 1), world("HarnessC02", 5, 1, 1, 2121, 0, 0), world("HarnessC02", 100, 0, 0, 0, 1, 0), world("HarnessC02", 102, 0, 0, 0, 1, 0), world("HarnessC02", 103, 0, 0, 0, 1, 0),
+			world("HarnessC02", 1, 1, 2, 0, 0, 0), world("HarnessC02", 2, 1, 2, 0, 1, 0), world("HarnessC02", 3, 1, 1, 0, 9, 0), world("HarnessC02", 0, 1, 1, 11, 9, 0), world("HarnessC02", 1, 1, 1, 11, 1, 0), world("HarnessC02", 2, 1, 1, 11, 3, 1), world("HarnessC02", 5, 1, 1, 2121, 0, 0), world("HarnessC02", 100, 0, 0, 0, 1, 0), world("HarnessC02", 102, 0, 0, 0, 1, 0), world("HarnessC02", 103, 0, 0, 0, 1, 0), world("HarnessC02", 8, 1, 1, 0, 9, 0), world("HarnessC02", 8, 1, 1, 11, 1, 0), world("HarnessC02", 0, 1, 1, 21, 3, 0),
 		},
 		Thorough: []Shard{
 			world("HarnessC02", 1, 1, 2, 0, 0, 0), world("HarnessC02", 2, 1, 2, 0, 1, 0), world("HarnessC02", 3, 1, 1, 0, 9, 0), world("HarnessC02", 0, 1, 1, 11, 9, 0), world("HarnessC02", 1, 1, 1, 11, 1, 0), world("HarnessC02", 2, 1, 1, 11, 3, 1), world("HarnessC02", 5, 1, 1, 2121, 0, 0), world("HarnessC02", 100, 0, 0, 0, 1, 0), world("HarnessC02", 102, 0, 0, 0, 1, 0), world("HarnessC02", 103, 0, 0, 0, 1, 0), world("HarnessC02", 3, 1, 2, 0, 9, 0), world("HarnessC02", 3, 1, 1, 11, 3, 0), world("HarnessC02", 0, 1, 1, 1111, 1, 0), world("HarnessC02", 0, 1, 1, 2121, 1, 0), world("HarnessC02", 0, 1, 2, 21, 1, 0), world("HarnessC02", 5, 1, 1, 212111, 0, 0), world("HarnessC02", 6, 1, 1, 2111, 1, 0), world("HarnessC02", 1, 1, 1, 91, 1, 0),
@@ -90,7 +90,7 @@ func registerResolver() {
 	register(&PropSpec{
 		ID: "C03", Pkg: "argmapper", SchedDependent: true,
 		Quick: []Shard{
-			world("HarnessC03", 1, 1, 1, 0, 1, 100), world("HarnessC03", 3, 1, 1, 11, 1, 100), world("HarnessC03", 1, 2, 0, 11, 0, 0), world("HarnessC03", 2, 1, 1, 11, 1, 100), world("HarnessC03", 0, 1, 0, 11, 9, 0), world("HarnessC03", 3, 1, 0, 91, 1, 100), world("HarnessC03", 1, 1, 1, 91, 1, 101), world("HarnessC03", 103, 0, 0, 0, 1, 100),
+			world("HarnessC03", 1, 1, 1, 0, 1, 100), world("HarnessC03", 3, 1, 1, 11, 1, 100), world("HarnessC03", 1, 2, 0, 11, 0, 0), world("HarnessC03", 2, 1, 1, 11, 1, 100), world("HarnessC03", 0, 1, 0, 11, 9, 0), world("HarnessC03", 3, 1, 0, 91, 1, 100), world("HarnessC03", 1, 1, 1, 91, 1, 101), world("HarnessC03", 103, 0, 0, 0, 1, 100), world("HarnessC03", 1, 1, 1, 91, 1, 100, 2), world("HarnessC03", 0, 1, 1, 91, 9, 100, 2),
 		},
 		Thorough: []Shard{
 			world("HarnessC03", 1, 1, 1, 0, 1, 100), world("HarnessC03", 3, 1, 1, 11, 1, 100), world("HarnessC03", 1, 2, 0, 11, 0, 0), world("HarnessC03", 2, 1, 1, 11, 1, 100), world("HarnessC03", 0, 1, 0, 11, 9, 0), world("HarnessC03", 3, 1, 0, 91, 1, 100), world("HarnessC03", 1, 1, 1, 91, 1, 101), world("HarnessC03", 103, 0, 0, 0, 1, 100), world("HarnessC03", 1, 1, 2, 0, 1, 100), world("HarnessC03", 3, 1, 1, 11, 3, 101), world("HarnessC03", 1, 2, 0, 11, 0, 101), world("HarnessC03", 0, 1, 1, 11, 9, 0), world("HarnessC03", 3, 1, 0, 1111, 1, 0), world("HarnessC03", 3, 2, 1, 11, 1, 1), world("HarnessC03", 3, 1, 1, 91, 1, 101), world("HarnessC03", 2, 1, 1, 91, 1, 102), world("HarnessC03", 7, 1, 1, 1191, 1, 0), world("HarnessC03", 102, 0, 0, 0, 1, 100),
@@ -148,7 +148,7 @@ func registerResolver() {
 	register(&PropSpec{
 		ID: "C13", Pkg: "argmapper",
 		Quick: []Shard{
-			world("HarnessC13", 1, 1, 2, 0, 0, 0), world("HarnessC13", 3, 2, 1, 0, 1, 0), world("HarnessC13", 0, 1, 1, 11, 9, 0), world("HarnessC13", 2, 1, 1, 11, 3, 1), world("HarnessC13", 1, 2, 1, 11, 1, 0), world("HarnessC13", 5, 2, 1, 2111, 0, 0), world("HarnessC13", 107, 0, 0, 0, 9, 0), world("HarnessC13", 103, 0, 0, 0, 1, 0),
+			world("HarnessC13", 1, 1, 2, 0, 0, 0), world("HarnessC13", 3, 2, 1, 0, 1, 0), world("HarnessC13", 0, 1, 1, 11, 9, 0), world("HarnessC13", 2, 1, 1, 11, 3, 1), world("HarnessC13", 1, 2, 1, 11, 1, 0), world("HarnessC13", 5, 2, 1, 2111, 0, 0), world("HarnessC13", 107, 0, 0, 0, 9, 0), world("HarnessC13", 103, 0, 0, 0, 1, 0), world("HarnessC13", 6, 2, 1, 0, 1, 0, 4), world("HarnessC13", 6, 2, 0, 11, 1, 0, 4),
 		},
 		Thorough: []Shard{
 			world("HarnessC13", 1, 1, 2, 0, 0, 0), world("HarnessC13", 3, 2, 1, 0, 1, 0), world("HarnessC13", 0, 1, 1, 11, 9, 0), world("HarnessC13", 2, 1, 1, 11, 3, 1), world("HarnessC13", 1, 2, 1, 11, 1, 0), world("HarnessC13", 5, 2, 1, 2111, 0, 0), world("HarnessC13", 3, 2, 2, 11, 1, 0), world("HarnessC13", 0, 2, 1, 1111, 1, 0), world("HarnessC13", 6, 2, 1, 12, 1, 0, 4), world("HarnessC13", 7, 2, 1, 11, 1, 0), world("HarnessC13", 1, 2, 1, 91, 1, 0),
@@ -204,9 +204,11 @@ func registerResolver() {
 	}
 	register(&PropSpec{
 		ID: "C15", Pkg: "argmapper",
-		Quick:    []Shard{sh("HarnessC15Set", "value lists of 1 value", 0, 1), sh("HarnessC15Set", "value lists of 2 values", 0, 2), sh("HarnessC15Set", "empty value list", 0, 0), c15b(1, 1, 2, 1), c15b(2, 1, 1, 0), c15b(1, 2, 1, 1), c15b(0, 1, 1, 1)},
-		Thorough: []Shard{sh("HarnessC15Set", "value lists of 1 value", 0, 1), sh("HarnessC15Set", "value lists of 2 values", 0, 2), sh("HarnessC15Set", "value lists of 3 values", 0, 3), sh("HarnessC15Set", "empty value list", 0, 0), c15b(1, 1, 3, 1), c15b(2, 1, 2, 1), c15b(1, 2, 2, 1), c15b(2, 2, 1, 1), c15b(0, 1, 1, 1), c15b(1, 0, 2, 0)},
-		Covers:   []string{"C15.set-checked", "C15.built-call-checked", "C15.built-error-path", "C15.consumer-checked"},
+		Quick:    []Shard{sh("HarnessC15Set", "value lists of 1 value", 0, 1), sh("HarnessC15Set", "value lists of 2 values", 0, 2), sh("HarnessC15Set", "empty value list", 0, 0), c15b(1, 1, 2, 1), c15b(2, 1, 2, 0), c15b(1, 2, 1, 1), c15b(0, 1, 1, 1),
+			sh("HarnessC15Out", "built converter with a named and a type-only output of one type, consumer fed by the type-only output", 0, 3), sh("HarnessC15Out", "same with a struct-form converter", 0, 1)},
+		Thorough: []Shard{sh("HarnessC15Set", "value lists of 1 value", 0, 1), sh("HarnessC15Set", "value lists of 2 values", 0, 2), sh("HarnessC15Set", "value lists of 3 values", 0, 3), sh("HarnessC15Set", "empty value list", 0, 0), c15b(1, 1, 3, 1), c15b(2, 1, 2, 1), c15b(1, 2, 2, 1), c15b(2, 2, 1, 1), c15b(0, 1, 1, 1), c15b(1, 0, 2, 0),
+			sh("HarnessC15Out", "built converter with a named and a type-only output of one type, consumer fed by the type-only output", 0, 3), sh("HarnessC15Out", "same with a struct-form converter", 0, 1), sh("HarnessC15Out", "same with a *struct-form converter", 0, 2)},
+		Covers:   []string{"C15.set-checked", "C15.built-call-checked", "C15.built-error-path", "C15.consumer-checked", "C15.omitted-input-checked", "C15.out-checked"},
 		Bounds:   []string{"value lists of <=2 (quick) / 3 (thorough) values with symbolic name in {'',a,Bb}, type in {P0,P1,P2}, subtype in {'',s}; payloads symbolic", "built functions with <=2 inputs and <=2 outputs, symbolic labels, symbolic failure, 1-3 consecutive calls, optional downstream consumer; compared with an ordinary (struct-form) twin"},
 		Outside:  []string{"value lists that repeat a name or a type-only type", "more than 3 values"},
 		Assume:   common,
@@ -257,7 +259,7 @@ func registerResolver() {
 		CVQuick:  2, CVThor: 4,
 	})
 	register(&PropSpec{
-		ID: "C09", Pkg: "argmapper",
+		ID: "C09", Pkg: "argmapper", RaceReplay: true,
 		Quick:    []Shard{w8("HarnessC09", 0, 1, 1, 11, 1, 2, 1), w8("HarnessC09", 0, 1, 1, 11, 9, 1, 1), w8("HarnessC09", 0, 1, 1, 1111, 1, 1, 1), w8("HarnessC09", 0, 1, 1, 11, 1, 1, 0)},
 		Thorough: []Shard{w8("HarnessC09", 0, 1, 1, 11, 1, 3, 1), w8("HarnessC09", 0, 1, 1, 11, 9, 2, 1), w8("HarnessC09", 0, 1, 1, 1111, 1, 2, 1), w8("HarnessC09", 1, 1, 1, 11, 1, 2, 1), w8("HarnessC09", 4, 1, 1, 11, 1, 2, 0), w8("HarnessC09", 0, 1, 1, 1121, 1, 1, 1), w8("HarnessC09", 3, 1, 1, 11, 1, 1, 1)},
 		Covers:   []string{"C09.redefines-done", "C09.results-compared", "C09.run-once-checked"},
